@@ -51,6 +51,20 @@ def source_value(rng, width, hi=None):
     return None
 
 
+def related_pool(rng):
+    """values that stand in a relation to one another (equal, adjacent, double / half, complementary to a power of two): what
+    the fields of real structures do - a source address that is the element's own, a last block right before the first aligned
+    one, a count equal to a length - and what independent draws of wide fields never produce"""
+    x = rng.choice([rng.randint(1, 40), rng.getrandbits(rng.randint(1, 16)) + 1, rng.getrandbits(rng.randint(17, 40)) + 0x10000, 1 << rng.randint(1, 40)])
+    return [x - 1, x, x, x + 1, 2 * x, x // 2, x - 1, x + 1]
+
+
+def related_value(rng, width, pool):
+    full = (1 << width) - 1
+    v = rng.choice(pool)
+    return v if 0 <= v <= full else v & full
+
+
 def rand_value(rng, width):
     """random value biased to interesting shapes"""
     v = source_value(rng, width)
